@@ -208,6 +208,53 @@ def work(arg):
             v('inverse-identity', f'{inv_name}({fwd_name}(x)) != x for {kind}: x={xa[i]:.9g} -> {ia[i]:.9g} (deviation {e:.3g})', xa, ia, extra)
         else:
             out['nt'] += 1
+    # ---- structural points of the closed-form inverses (where a discriminant or an auxiliary quantity vanishes) and long arrays
+    struct = []
+    if name == 'DSLangmuir':
+        q_ = params
+        struct.append((q_['n_m1'] * q_['K1'] + q_['n_m2'] * q_['K2']) / (q_['K1'] + q_['K2']))     # y = 0 in the quadratic formula
+        struct += [q_['n_m1'], q_['n_m2'], 0.5 * (q_['n_m1'] + q_['n_m2'])]
+    if name in ('BET', 'GAB', 'Langmuir', 'Toth', 'TemkinApprox', 'Quadratic'):
+        struct += [0.5 * params['n_m'], params['n_m'] * 0.25]
+    p_top_, n_top_ = both_ranges(m, name, params)
+    for ns in struct:
+        if not (0 < ns < 0.98 * n_top_):
+            continue
+        op_ = core.call(m.pressure, float(ns))
+        out['ev'] += 1
+        if not op_.ok:
+            continue
+        pv_ = float(numpy.asarray(op_.value).reshape(-1)[0])
+        back = core.call(m.loading, pv_)
+        out['nt'] += 1
+        arr_ = core.call(m.pressure, numpy.array([ns, 0.9 * ns]))
+        if not (pv_ > 0) or not back.ok or abs(float(numpy.asarray(back.value).reshape(-1)[0]) - ns) > 1e-6 * ns or \
+                (arr_.ok and abs(float(numpy.asarray(arr_.value).reshape(-1)[0]) - pv_) > 1e-9 * abs(pv_) + 1e-300):
+            v('structural-point', f'pressure({ns!r}) = {pv_!r} (loading back: {back.value if back.ok else back.brief()}; in an array: {arr_.value if arr_.ok else arr_.brief()}) '
+              f'at a structural point of the inverse formula', ns, pv_, {'fn': 'pressure'})
+    for fn_name, fn, top in (('loading', m.loading, p_top_), ('pressure', m.pressure, n_top_)):
+        if not top > 0:
+            continue
+        if name in ('Virial', 'FHVST', 'WVST') and fn_name == 'loading':
+            continue        # scalar-only numerical inverse
+        for npts in (201, 433):
+            xs_long = numpy.linspace(0.05 * top, 0.6 * top, npts)
+            o_long = core.call(fn, xs_long)
+            out['ev'] += 1
+            if not o_long.ok:
+                if name in ml.NUMERIC_INVERSE and fn_name != explicit:
+                    out['noreturn'] += 1
+                    continue
+                v('long-array', f'{fn_name}(array of {npts} values) {o_long.brief()}', None, o_long.brief(), {'fn': fn_name, 'kind': o_long.kind})
+                continue
+            got_ = numpy.asarray(o_long.value, dtype=float).reshape(-1)
+            idx_ = [0, 1, npts // 2, 199, 200, npts - 2, npts - 1]
+            ref_ = numpy.array([float(numpy.asarray(fn(float(xs_long[i]))).reshape(-1)[0]) for i in idx_])
+            out['nt'] += 1
+            tol_ = TOL_NUM if (name in ml.NUMERIC_INVERSE and fn_name != explicit) else 1e-10
+            if got_.shape != (npts,) or core.relerr(got_[idx_], ref_) > tol_:
+                v('long-array', f'{fn_name}(array of {npts} values): entries {idx_} are {got_[idx_] if got_.shape == (npts,) else got_.shape} but evaluated one by one they are {ref_}',
+                  ref_, got_[idx_] if got_.shape == (npts,) else None, {'fn': fn_name})
     # ---- integer-typed inputs (both directions): the value, not the literal type, decides
     p_top, n_top = both_ranges(m, name, params)
     for fn_name, fn, top in (('loading', m.loading, p_top), ('pressure', m.pressure, n_top)):
